@@ -628,15 +628,16 @@ class Body:
         """defs[local] = list of ('assign', block, idx, rvalue) | ('call', block, Call) | ('part', block, idx, place, rvalue)"""
         if self._defs is None:
             d = defaultdict(list)
+            # a write through a dereference (`*p = ..`) is not a definition of the pointer local p
             for i, j, p, rv, _ in self.assigns():
                 if is_bare(p):
                     d[p[0]].append(("assign", i, j, rv))
-                else:
+                elif p[1][0] != "*":
                     d[p[0]].append(("part", i, j, p, rv))
             for c in self.calls:
                 if is_bare(c.dest):
                     d[c.dest[0]].append(("call", c.block, c))
-                else:
+                elif c.dest[1][0] != "*":
                     d[c.dest[0]].append(("partcall", c.block, c))
             for i, bl in enumerate(self.blocks):
                 t = bl["t"]
@@ -1282,7 +1283,7 @@ def decision_paths(body, start, stop, max_paths=20000, value_switch=None):
 
 def describe_place(body, place, depth=0):
     local, projs = place
-    if depth > 12:
+    if depth > 28:
         return "…"
     fields = place_fields(place)
     variants = place_variants(place)
@@ -1346,7 +1347,7 @@ def describe_operand(body, op, depth=0):
 
 def describe_call(body, c, depth=0):
     nm = c.via_name or c.name or "?"
-    if depth > 10:
+    if depth > 24:
         return nm + "(…)"
     args = [describe_operand(body, a, depth + 1) for a in c.args]
     if nm in ("deref", "deref_mut", "as_ref", "as_mut", "borrow", "borrow_mut", "into", "from") and len(args) == 1:
@@ -1356,7 +1357,7 @@ def describe_call(body, c, depth=0):
 
 def describe_rvalue(body, rv, depth=0):
     k = rv[0]
-    if depth > 12:
+    if depth > 28:
         return "…"
     if k == "use":
         return describe_operand(body, rv[1], depth)
